@@ -356,6 +356,35 @@ void check_run(Cpx& cpx, Exposure& e, const RunSpec& rs, const std::string& carr
     for (auto& r : again) a2.push_back({r.ch, Bar{r.bar.dim, r.bar.b, r.bar.d, false}});
     std::sort(a2.begin(), a2.end());
     VF_CHECK(a2 == want, "output_diagram", where << ": get_persistent_pairs() changed after output_diagram()");
+    // ... nor what the derived queries answer: they must not depend on the order in which the pairs are stored
+    std::vector<int> gb2 = pcoh.betti_numbers();
+    VF_CHECK(gb2 == betti, "betti_numbers-after-output", where << ": betti_numbers() changed after output_diagram()");
+    for (int d = -1; d <= dmax + 1; ++d) {
+      int w = (d >= 0 && size_t(d) < nb) ? betti[size_t(d)] : 0;
+      VF_CHECK(pcoh.betti_number(d) == w, "betti_number-after-output", where << ": after output_diagram(), betti_number(" << d << ") = " << pcoh.betti_number(d) << ", pairs imply " << w);
+    }
+    for (size_t a = 0; a < rs.probes.size(); ++a)
+      for (size_t b = 0; b < rs.probes.size(); ++b) {
+        FV from = FV(rs.probes[a]), to = FV(rs.probes[b]);
+        std::vector<int> w(nb, 0);
+        for (auto& r : reps)
+          if (FV(r.bar.b) <= from && (r.bar.ess || FV(r.bar.d) > to)) ++w[size_t(r.bar.dim)];
+        VF_CHECK(pcoh.persistent_betti_numbers(from, to) == w, "persistent_betti_numbers-after-output", where << ": after output_diagram(), persistent_betti_numbers(" << fmt(from) << "," << fmt(to) << ") differs from what the pairs imply");
+        for (int d = -1; d <= dmax; ++d) {
+          int wd = (d >= 0 && size_t(d) < nb) ? w[size_t(d)] : 0;
+          int g = pcoh.persistent_betti_number(d, from, to);
+          VF_CHECK(g == wd, "persistent_betti_number-after-output", where << ": after output_diagram(), persistent_betti_number(" << d << "," << fmt(from) << "," << fmt(to) << ") = " << g << ", pairs imply " << wd);
+        }
+      }
+    for (int d = -1; d <= dmax + 1; ++d) {
+      std::vector<std::pair<double, double>> w, g;
+      for (auto& r : reps)
+        if (r.bar.dim == d) w.push_back({r.bar.b, r.bar.d});
+      for (auto& iv : pcoh.intervals_in_dimension(d)) g.push_back({double(iv.first), double(iv.second)});
+      std::sort(w.begin(), w.end());
+      std::sort(g.begin(), g.end());
+      VF_CHECK(g == w, "intervals_in_dimension-after-output", where << ": after output_diagram(), intervals_in_dimension(" << d << ") differs from what the pairs imply");
+    }
   }
   ctx.hit(std::string("run:") + carrier + (multi ? ":multi" : ":zp"));
 }
